@@ -275,22 +275,45 @@ func cmdTplCases(args []string) error {
 	return nil
 }
 
-// tplrace: concurrent FIRST use of cached providers by many goroutines.  Run in a subprocess:
-// a runtime map fault kills the process (exit status 2), which the parent reports.
+// tplrace: concurrent FIRST use of cached and uncached providers by many goroutines that ask for views AND, directly,
+// for layouts (the three layers have their own locks).  Every template handed out must show exactly its own
+// layering: its definitions of N1 / N2, all extra definitions of its own view files and none of another view's.
+// Run in a subprocess: a runtime map fault kills the process (exit status 2), which the parent reports.
 func cmdTplRace(args []string) error {
 	fl := flag.NewFlagSet("tplrace", flag.ExitOnError)
 	trials := fl.Int("trials", 300, "trials")
 	g := fl.Int("g", 16, "goroutines")
 	fl.Parse(args)
 	c := &tplCase{Hdef: []string{"N1"}, Ldef: map[string][]string{"L1": {"N1", "N2"}, "L2": {"N2"}}, Vdef: map[string][]string{"V1": {"N2"}, "V2": {"N1", "N2"}}}
+	wantN := map[string][2]string{ // layer -> N1, N2
+		"L1": {"L:L1:N1", "L:L1:N2"}, "L2": {"H:h:N1", "L:L2:N2"},
+		"L1/V1": {"L:L1:N1", "V:V1:N2"}, "L2/V1": {"H:h:N1", "V:V1:N2"}, "L1/V2": {"V:V2:N1", "V:V2:N2"}, "L2/V2": {"V:V2:N1", "V:V2:N2"},
+	}
+	const extra = 6
 	mismatches := 0
+	first := ""
+	var mu sync.Mutex
+	bad := func(what string) {
+		mu.Lock()
+		mismatches++
+		if first == "" {
+			first = what
+		}
+		mu.Unlock()
+	}
 	for t := 0; t < *trials; t++ {
 		fs := writeTemplateFiles(c)
-		hp := ghprovider.NewProvider(fs, "helpers", "layouts/{name}", "views/{name}", ".tmpl", nil, true)
-		tp := gtprovider.NewProvider(fs, "helpers", "layouts/{name}", "views/{name}", ".tmpl", nil, true)
+		// several files per view: a build walks them one by one
+		for _, v := range []string{"V1", "V2"} {
+			for k := 0; k < extra; k++ {
+				fs.WriteFile(fmt.Sprintf("views/%s/x%d.tmpl", v, k), []byte(fmt.Sprintf("{{define \"X%s%d\"}}X:%s:%d{{end}}", v, k, v, k)), filesystem.DefaultUnixFileMode)
+			}
+		}
+		cached := t%2 == 0
+		hp := ghprovider.NewProvider(fs, "helpers", "layouts/{name}", "views/{name}", ".tmpl", nil, cached)
+		tp := gtprovider.NewProvider(fs, "helpers", "layouts/{name}", "views/{name}", ".tmpl", nil, cached)
 		start := make(chan struct{})
 		var wg sync.WaitGroup
-		var mu sync.Mutex
 		for i := 0; i < *g; i++ {
 			wg.Add(1)
 			go func(i int) {
@@ -298,27 +321,69 @@ func cmdTplRace(args []string) error {
 				<-start
 				l := []string{"L1", "L2"}[i%2]
 				v := []string{"V1", "V2"}[(i/2)%2]
+				html := i%4 < 2
+				direct := (i/4)%2 == 1 // asks for the OTHER layout directly, not for a view
 				for k := 0; k < 3; k++ {
-					var got string
-					if i%4 < 2 {
-						t, err := hp.View(l, v)
+					var exec func(name string) (string, error)
+					var lookup func(name string) bool
+					key := l + "/" + v
+					var err error
+					if direct {
+						key = l
+					}
+					if html {
+						var tt *htmltemplate.Template
+						if direct {
+							tt, err = hp.Layout(l)
+						} else {
+							tt, err = hp.View(l, v)
+						}
 						if err == nil {
-							var b bytes.Buffer
-							t.ExecuteTemplate(&b, "N2", nil)
-							got = b.String()
+							exec = func(n string) (string, error) {
+								var b bytes.Buffer
+								e := tt.ExecuteTemplate(&b, n, nil)
+								return b.String(), e
+							}
+							lookup = func(n string) bool { return tt.Lookup(n) != nil }
 						}
 					} else {
-						t, err := tp.View(l, v)
+						var tt *texttemplate.Template
+						if direct {
+							tt, err = tp.Layout(l)
+						} else {
+							tt, err = tp.View(l, v)
+						}
 						if err == nil {
-							var b bytes.Buffer
-							t.ExecuteTemplate(&b, "N2", nil)
-							got = b.String()
+							exec = func(n string) (string, error) {
+								var b bytes.Buffer
+								e := tt.ExecuteTemplate(&b, n, nil)
+								return b.String(), e
+							}
+							lookup = func(n string) bool { return tt.Lookup(n) != nil }
 						}
 					}
-					if got != "V:"+v+":N2" {
-						mu.Lock()
-						mismatches++
-						mu.Unlock()
+					if err != nil {
+						bad(fmt.Sprintf("request %s failed: %v", key, err))
+						continue
+					}
+					// which definitions it has (looked up BEFORE executing: an executed html layout can no longer be cloned)
+					for _, ov := range []string{"V1", "V2"} {
+						for x := 0; x < extra; x++ {
+							name := fmt.Sprintf("X%s%d", ov, x)
+							has := lookup(name)
+							should := !direct && ov == v
+							if has != should {
+								bad(fmt.Sprintf("template %s (html=%v cached=%v): definition %s present=%v, specification %v", key, html, cached, name, has, should))
+							}
+						}
+					}
+					if direct {
+						continue // layouts are not executed: the provider clones them for views
+					}
+					for ni, n := range []string{"N1", "N2"} {
+						if got, e := exec(n); e != nil || got != wantN[key][ni] {
+							bad(fmt.Sprintf("view %s (html=%v cached=%v) renders %s as %q (err %v), specification %q", key, html, cached, n, got, e, wantN[key][ni]))
+						}
 					}
 				}
 			}(i)
@@ -326,7 +391,7 @@ func cmdTplRace(args []string) error {
 		close(start)
 		wg.Wait()
 	}
-	b, _ := json.Marshal(map[string]interface{}{"trials": *trials, "goroutines": *g, "mismatches": mismatches})
+	b, _ := json.Marshal(map[string]interface{}{"trials": *trials, "goroutines": *g, "mismatches": mismatches, "first": first})
 	fmt.Println(string(b))
 	return nil
 }
